@@ -44,8 +44,8 @@ check("C16", "model_checking",
 
 check("C06", "fault_enumeration",
       "For each victim call kind (Add, auto-compacting Add, two-table Addition+Commit, CompactAll, CompactAll with expiry, partial-range compaction, Clean, Close) x initial stack x hash type, the victim runs the real code and is killed immediately before its k-th filesystem call for EVERY k (descriptor writes and closes included); then a survivor (once as is, once after leftover lock files were removed) opens, scans, adds, scans, compacts, scans, cleans, closes, reopens and scans. Every scan must equal the reference model's state before or after the operation (after, if the call had returned success), survivor reads never fail, survivor writes fail only with ErrLockFailure while a leftover tables.list.lock exists, and the C05 list invariant holds after every mutation. The enumerated object is the crash point, hence fault_enumeration.",
-      "Process crash only (completed calls persist, no cleanup runs); the POSIX directory model of DESIGN.md 4.1; one sequential survivor (concurrent survivors: crash-as-choice scenario of C05). Power loss / torn writes are outside C06 by its own statement.",
-      "exhaustive crash-point enumeration of the real call over the in-memory directory + survivor program against a reference map", "DESIGN.md 4.4, 6/C06", "crashseq")
+      "Process crash only (completed calls persist, no cleanup runs); in addition one filesystem call of the victim (every position in turn) fails with EIO and the victim finishes or is killed at a later call; the POSIX directory model of DESIGN.md 4.1; one sequential survivor (concurrent survivors: crash-as-choice scenario of C05). Power loss / torn writes are outside C06 by its own statement.",
+      "exhaustive crash-point enumeration of the real call over the in-memory directory, alone and after every single failing filesystem call of the call, + survivor program against a reference map", "DESIGN.md 4.4, 6/C06", "crashseq")
 
 check("C01", "model_checking",
       "Small-scope exhaustive enumeration: every table of families F1 (all sorted sets of <=3 refs over a name alphabet rich in prefix relations x every kind vector x update index at both limits; all sets of <=3 log keys x entry/deletion x 4 message shapes), F2 (block structure: 1..120 records x 3 name styles x refs/logs/both) and F3 (fill sweep: every length of a ref name / symref target / compressible and incompressible log message up to the block size) x the configuration grid is written by the real Writer and read back by the real Reader; the scan must equal the normalised input record for record. Inputs the writer rejects are counted, a writer panic is a failure.",
@@ -89,8 +89,8 @@ check("C18", "fault_enumeration",
       "exhaustive enumeration of 1- and 2-edit corruptions of a layout-covering corpus, driven through every read path of the real reader", "DESIGN.md 6/C18", "corrupt")
 
 check("C19", "model_checking",
-      "For four shared objects (a Reader over memory with 128-byte blocks, an unaligned one, a file-backed SHA-256 one over the in-memory directory, and a Merged view of three readers) every ordered pair of 8 read programs (seek+next on refs and logs, RefsFor, scans, ReadRef, ReadLogAt) and selected triples (thorough: all triples) run as goroutines under the controlled scheduler with scheduling points at every API call and every ReadBlock/ReadAt; ALL interleavings are explored. (i) every goroutine must get exactly the results it gets alone; (ii) when the package uses no synchronisation primitives, a deep hash (through unexported fields) of the shared object graph and of all package-level variables must not change during any read step - an unsynchronised write on a read path is a data race as soon as two goroutines take it. Supplementary, not part of the exhaustive claim: the same bodies free-running under the Go race detector; a report is a violation (it is always a real race), silence is not evidence.",
-      "The observable half of C19 is decided at ReadBlock/API-call granularity; 'no data race in the Go memory model' for writes invisible in the object graph is outside a cooperative scheduler (brief: hand-offs are happens-before edges). If the package imports sync or sync/atomic the frozen-state invariant is switched off (mutation may then be legitimate) and the evidence says so.",
+      "For five shared objects (a Reader over memory with 128-byte blocks, an unaligned one, a file-backed SHA-256 one over the in-memory directory, a file-backed one with three 128 KiB blocks, and a Merged view of three readers) every ordered pair of 8 read programs (seek+next on refs and logs, RefsFor, scans, ReadRef, ReadLogAt) and selected triples (thorough: all triples) run as goroutines under the controlled scheduler with scheduling points at every API call and every ReadBlock/ReadAt; ALL interleavings are explored. (i) every goroutine must get exactly the results it gets alone; (ii) when the package uses no synchronisation primitives, a deep hash (through unexported fields) of the shared object graph and of all package-level variables must not change during any read step - an unsynchronised write on a read path is a data race as soon as two goroutines take it. Supplementary, not part of the exhaustive claim: the same bodies free-running under the Go race detector; a report is a violation (it is always a real race), silence is not evidence.",
+      "The observable half of C19 is decided at ReadBlock/API-call granularity; 'no data race in the Go memory model' for writes invisible in the object graph is outside a cooperative scheduler (brief: hand-offs are happens-before edges). If the package imports sync its primitives are replaced by shim/vsync (blocking operations are visible waits with an enabledness condition; deadlock is reported) and the frozen-state invariant becomes lock-aware (the shared object graph may change only while the changing goroutine holds an exclusive lock); with sync/atomic it is switched off and the evidence says so. Channels and sync.Cond are not modelled.",
       "stateless DFS over all goroutine interleavings of the real readers + frozen-state invariant; race detector as labelled supplement", "DESIGN.md 6/C19", "sharedread")
 
 check("C15", "translation_validation",
@@ -123,11 +123,11 @@ manifest = {
         {"name": "corrupt", "path": "harness/corrupt", "serves_properties": ["C18"],
          "kind_free_text": "deviation-bounded corruption enumeration over a corpus of writer-produced tables; workers under ulimit -v with per-mutant markers"},
         {"name": "sharedread", "path": "harness/sharedread", "serves_properties": ["C19"],
-         "kind_free_text": "engine E1 scheduler over goroutines sharing a Reader/Merged; scheduling points at API calls and ReadBlock; deep-hash frozen-state invariant; -race build for the supplementary pass"},
+         "kind_free_text": "engine E1 scheduler over goroutines sharing a Reader/Merged; scheduling points at API calls, ReadBlock and the sync shim's blocking operations; deep-hash frozen-state invariant (strict or lock-aware); -race build for the supplementary pass"},
         {"name": "cdiff", "path": "harness/cdiff", "serves_properties": ["C15"],
          "kind_free_text": "Go harness + persistent C driver process (cdriver/driver.c linked against /repo/c) over real files in a scratch directory"},
         {"name": "crashseq", "path": "harness/crashseq", "serves_properties": ["C06"],
-         "kind_free_text": "engine E1 in sequential mode: every filesystem-call boundary of a call is a crash point; survivor program on the real code"},
+         "kind_free_text": "engine E1 in sequential mode: every filesystem-call boundary of a call is a crash point and every filesystem call a failure point; survivor program on the real code"},
     ],
     "checks": [CHECKS[p] for p in ALL if p in CHECKS],
     "not_applicable": [{"property_id": p, "reason": NOT_YET} for p in ALL if p not in CHECKS],
